@@ -8,6 +8,7 @@ import (
 	"io"
 
 	V "filippo.io/age/internal/zzverif"
+	"golang.org/x/crypto/chacha20poly1305"
 )
 
 // pos returns a length q*unit + r with -unit/2 < r <= unit/2, so that every
@@ -429,4 +430,39 @@ func Harness_stream_incnonce() {
 	V.Assert(nonce == want, "incNonce is not +1 on the big-endian counter")
 	V.Assert(nonce[11] == before[11], "incNonce touched the flag byte")
 	V.Assert(nonce != before, "nonce unchanged")
+}
+
+// Harness_stream_rechunk (C02): an attacker who knows the key seals 1..3
+// arbitrary pieces (each 0..c bytes) under arbitrary 12-byte nonces and
+// concatenates them. If the reader accepts the result through a clean end of
+// stream, it is byte for byte the canonical stream of the concatenated
+// plaintext: for a given key exactly one chunking of a plaintext is accepted
+// (counter from zero, all chunks full but the last, final flag on the last
+// chunk only, empty last chunk only if it is the only one).
+func Harness_stream_rechunk() {
+	key := V.Bytes("key", 32)
+	c := V.ChunkSize()
+	a, err := chacha20poly1305.New(key)
+	V.Assert(err == nil, "AEAD construction failed")
+	k := V.Int("chunks", 1, V.Param("maxchunks", 3))
+	var Y, P []byte
+	for i := 0; i < k; i++ {
+		id := string(rune('0' + i))
+		nonce := V.Bytes("nonce"+id, 12)
+		ln := pos("len"+id, c, 1)
+		V.Assume(ln <= c)
+		piece := V.Bytes("piece"+id, ln)
+		Y = append(Y, a.Seal(nil, nonce, piece, nil)...)
+		P = append(P, piece...)
+	}
+	r, _ := NewReader(key, bytes.NewReader(Y))
+	out, rerr := drain(r, len(P)+1, len(P)+len(Y)+8)
+	V.Assert(len(out) <= len(P) && bytes.Equal(out, P[:len(out)]), "released bytes are not a prefix of the sealed plaintext")
+	if rerr == io.EOF {
+		V.Reach("accepted")
+		V.Assert(bytes.Equal(out, P), "accepted stream yields other plaintext")
+		V.Assert(bytes.Equal(Y, encryptSegmented(key, P, 0, len(P))), "a chunking other than the canonical one was accepted")
+	} else {
+		V.Reach("refused")
+	}
 }
